@@ -159,6 +159,11 @@ func c03Stack(t *T, kind int) (fs hackpadfs.FS, st *SimStore, desc string) {
 		root, _ := mem.NewFS()
 		mfs, _ := mount.NewFS(root)
 		points := []string{"a"}
+		if kind == 3 && t.C.Chance(1, 2) {
+			// a second mount point whose name extends the first one's by a byte that sorts below '/'
+			points = []string{"a", "a.x"}
+			must(t, root.Mkdir("a.x", 0755))
+		}
 		if kind == 4 {
 			points = []string{"a", "b/c"}
 			must(t, root.MkdirAll("b/c", 0755))
@@ -191,6 +196,36 @@ func c03HeldHandle(t *T, kind int) {
 	c := t.C
 	fs, st, desc := c03Stack(t, kind)
 	probe := candidatePaths([]string{"a", "b", "c"}, 3)
+	if c.Chance(1, 3) {
+		// a directory handle read page by page while its entries go away: every call still returns
+		if err := hackpadfs.MkdirAll(fs, "b", 0755); err != nil {
+			return
+		}
+		for _, n := range []string{"b/a", "b/b", "b/c"} {
+			_ = hackpadfs.WriteFullFile(fs, n, []byte("x"), 0644)
+		}
+		h, err := fs.Open("b")
+		if err != nil {
+			return
+		}
+		defer h.Close()
+		t.Logf("mode=held-directory-handle stack=%s", desc)
+		for i, n := 0, 2+c.Draw(4); i < n; i++ {
+			if c.Chance(1, 2) {
+				page, err := hackpadfs.ReadDirFile(h, 1+c.Draw(2))
+				t.Logf("ReadDir -> %d entries, %s", len(page), errClass(err))
+			} else {
+				o := Op{Kind: []string{"Remove", "Rename"}[c.Draw(2)], P: []string{"b/a", "b/b", "b/c"}[c.Draw(3)], Q: "c"}
+				out := applyOp(fs, o)
+				t.Logf("%s -> %s", o, errClass(out.Err))
+			}
+			if k, d := treeInvariants(fs, probe); k != "" {
+				t.Fail("invariant", "C03:"+c03Family(kind)+":"+k+":held-directory-handle", fmt.Sprintf("on %s: %s", desc, d))
+			}
+		}
+		t.NonTrivial()
+		return
+	}
 	dir := []string{".", "a"}[c.Draw(2)]
 	if dir != "." {
 		if err := hackpadfs.MkdirAll(fs, dir, 0755); err != nil {
